@@ -52,6 +52,8 @@ def write_replay(prop: str, seed: int, payload: dict) -> str:
     d = os.path.join(C.VERIF, "replays")
     os.makedirs(d, exist_ok=True)
     path = os.path.join(d, f"{prop}-{int(time.time())}-{seed}.json")
+    if os.path.exists(path):        # another run of the same check in the same second (checks running side by side)
+        path = os.path.join(d, f"{prop}-{int(time.time())}-{seed}-{os.getpid()}.json")
     with open(path, "w") as f:
         json.dump(payload, f, indent=1, default=str)
     return os.path.relpath(path, C.VERIF)
